@@ -411,15 +411,289 @@ func runC20(tier string, r *Result) {
 		}
 	}
 	r.Extra["configurations"] = len(cfgs)
+	seqs := c20Seqs()
+	for i, q := range seqs {
+		if !r.mine(len(cfgs)+i) || r.expired() {
+			continue
+		}
+		msg, key, outcome := runC20Seq(q)
+		r.Executions++
+		r.Nodes++
+		r.Steps += 6
+		if key == "infra" {
+			r.Extra["inconclusive_environment"]++
+			r.outcome("inconclusive: " + msg)
+			continue
+		}
+		if msg != "" {
+			r.outcome("violation " + strings.SplitN(key, " history=", 2)[0])
+			r.violation(key, msg, q)
+			continue
+		}
+		r.outcome(outcome)
+	}
+	r.Extra["two_listen_histories"] = len(seqs)
 }
 
 func init() {
 	helpers["c20"] = c20Helper
+	helpers["c20seq"] = c20SeqHelper
 	props["C20"] = propFn{run: runC20, replay: func(raw json.RawMessage) (string, string) {
+		var q c20Seq
+		if json.Unmarshal(raw, &q) == nil && q.First.Pid != "" {
+			msg, key, _ := runC20Seq(q)
+			return msg, key
+		}
 		var c c20Cfg
 		json.Unmarshal(raw, &c)
 		msg, key, _ := runC20Config(c)
 		return msg, key
-	}, rule: "exhaustive enumeration of the configuration product LISTEN_PID {this process, another pid, the parent's pid, unset, garbage} x LISTEN_FDS {unset, '', foo, -1, 0, 1, 2, 3} x LISTEN_FDNAMES {unset, '', 16 lists with varlink first/middle/last/twice/absent/wrong case/superstring and arity 1-4} x kind of each of the three inherited descriptors {listening socket, regular file, pipe} x address argument {valid abstract name, invalid, path of an existing file}; every configuration runs Service.Listen in a fresh helper process that really inherits descriptors 3-5; the endpoint the service listens on (and a GetInfo round trip on it with the helper's unique product string) is compared with a reference selector restating the property; states = configurations executed",
+	}, rule: "exhaustive enumeration of the configuration product LISTEN_PID {this process, another pid, the parent's pid, unset, garbage} x LISTEN_FDS {unset, '', foo, -1, 0, 1, 2, 3} x LISTEN_FDNAMES {unset, '', 16 lists with varlink first/middle/last/twice/absent/wrong case/superstring and arity 1-4} x kind of each of the three inherited descriptors {listening socket, regular file, pipe} x address argument {valid abstract name, invalid, path of an existing file}; every configuration runs Service.Listen in a fresh helper process that really inherits descriptors 3-5; the endpoint the service listens on (and a GetInfo round trip on it with the helper's unique product string) is compared with a reference selector restating the property; plus two-Listen histories: two services started one after the other in one process over 7 environments before x 7 after (activation appearing late, being cleared, moving to another descriptor), each judged against the environment at the time of its own Listen; states = configurations and histories executed",
 		assume: []string{"one helper process per configuration; descriptor numbers beyond the three passed ones are runtime-internal (never sockets usable as listeners)", "LISTEN_FDS forms with sign or blanks ('+1', ' 1') are outside the alphabet (the property does not say whether they are integers)", "the 30-60 s watchdogs only classify a run as inconclusive"}}
+}
+
+// ---------------------------------------------------------------------------------------------
+// Histories: two services started one after the other in ONE process, the LISTEN_* environment changing in
+// between. The decision is a function of the environment at the time of each Listen: what an earlier Listen
+// found (or did not find) must not govern a later one.
+
+type c20Env struct {
+	Pid   string  `json:"pid"`
+	FDS   *string `json:"fds"`
+	Names *string `json:"names"`
+}
+
+type c20Seq struct {
+	First  c20Cfg `json:"first"`
+	Second c20Env `json:"second"`
+}
+
+func c20Seqs() []c20Seq {
+	envs := []c20Env{
+		{"own", sp("1"), nil},
+		{"unset", nil, nil},
+		{"other", sp("1"), nil},
+		{"own", sp("0"), nil},
+		{"own", sp("3"), sp("a:varlink:b")},
+		{"own", sp("2"), sp("a:varlink")},
+		{"own", sp("foo"), sp("varlink")},
+	}
+	var out []c20Seq
+	for _, a := range envs {
+		for _, b := range envs {
+			c1 := c20Cfg{Pid: a.Pid, FDS: a.FDS, Names: a.Names, Kinds: [3]string{"sock", "sock", "sock"}, Addr: "valid"}
+			c2 := c20Cfg{Pid: b.Pid, FDS: b.FDS, Names: b.Names, Kinds: c1.Kinds}
+			if s1, s2 := refActivation(c1), refActivation(c2); s1 >= 0 && s1 == s2 {
+				continue // the same descriptor adopted twice in one process: not a situation the property describes
+			}
+			out = append(out, c20Seq{First: c1, Second: b})
+		}
+	}
+	return out
+}
+
+func setListenEnv(pid string, fds, names *string) {
+	switch pid {
+	case "own":
+		os.Setenv("LISTEN_PID", strconv.Itoa(os.Getpid()))
+	case "other":
+		os.Setenv("LISTEN_PID", strconv.Itoa(os.Getpid()+1))
+	case "parent":
+		os.Setenv("LISTEN_PID", strconv.Itoa(os.Getppid()))
+	case "garbage":
+		os.Setenv("LISTEN_PID", "garbage")
+	default:
+		os.Unsetenv("LISTEN_PID")
+	}
+	if fds != nil {
+		os.Setenv("LISTEN_FDS", *fds)
+	} else {
+		os.Unsetenv("LISTEN_FDS")
+	}
+	if names != nil {
+		os.Setenv("LISTEN_FDNAMES", *names)
+	} else {
+		os.Unsetenv("LISTEN_FDNAMES")
+	}
+}
+
+// helper "c20seq": Listen under the first environment, report, Listen (second Service) under the second, report
+func c20SeqHelper(args []string) int {
+	var q c20Seq
+	if len(args) < 1 || json.Unmarshal([]byte(args[0]), &q) != nil {
+		fmt.Println("BADARGS")
+		return 2
+	}
+	start := func(tag, product, fallback, pid string, fds, names *string) (*varlink.Service, chan error) {
+		setListenEnv(pid, fds, names)
+		svc, _ := varlink.NewService("vx", product, "1", "u")
+		done := make(chan error, 1)
+		go func() {
+			defer func() {
+				if p := recover(); p != nil {
+					fmt.Println("PANIC"+tag, p)
+					os.Exit(0)
+				}
+			}()
+			done <- svc.Listen(context.Background(), "unix:"+fallback, 0)
+		}()
+		for {
+			select {
+			case err := <-done:
+				fmt.Println("LISTENERR"+tag, err)
+				return nil, nil
+			default:
+			}
+			if l, _ := svc.GetListener(); l != nil {
+				fmt.Println("READY"+tag, l.Addr().Network(), l.Addr().String())
+				return svc, done
+			}
+			time.Sleep(50 * time.Microsecond)
+		}
+	}
+	c := q.First
+	s1, d1 := start("1", c.Product, c.Fallback, c.Pid, c.FDS, c.Names)
+	if s1 == nil {
+		return 0
+	}
+	s2, d2 := start("2", c.Product+"-second", c.Fallback+"-second", q.Second.Pid, q.Second.FDS, q.Second.Names)
+	if s2 == nil {
+		return 0
+	}
+	io.Copy(io.Discard, os.Stdin)
+	s1.Shutdown()
+	s2.Shutdown()
+	for _, d := range []chan error{d1, d2} {
+		select {
+		case err := <-d:
+			fmt.Println("DONE", err)
+		case <-time.After(60 * time.Second):
+			fmt.Println("DONE timeout")
+		}
+	}
+	return 0
+}
+
+func runC20Seq(q c20Seq) (msg, key, outcome string) {
+	n := atomic.AddInt64(&c20Ctr, 1)
+	tag := fmt.Sprintf("vx20s-%d-%d", os.Getpid(), n)
+	c := &q.First
+	c.Product = "P-" + tag
+	c.Fallback = "@" + tag + "-fallback"
+	var files []*os.File
+	var closers []io.Closer
+	defer func() {
+		for _, cl := range closers {
+			cl.Close()
+		}
+	}()
+	for i := range c.Kinds {
+		name := fmt.Sprintf("@%s-fd%d", tag, 3+i)
+		l, err := net.Listen("unix", name)
+		if err != nil {
+			return "listen " + name + ": " + err.Error(), "infra", ""
+		}
+		f, err := l.(*net.UnixListener).File()
+		if err != nil {
+			return err.Error(), "infra", ""
+		}
+		closers = append(closers, l, f)
+		files = append(files, f)
+		c.Cand[i] = name
+	}
+	qj, _ := json.Marshal(q)
+	cmd := exec.Command(os.Args[0], "-helper", "c20seq", string(qj))
+	for _, e := range os.Environ() {
+		if !strings.HasPrefix(e, "LISTEN_") {
+			cmd.Env = append(cmd.Env, e)
+		}
+	}
+	cmd.ExtraFiles = files
+	stdin, _ := cmd.StdinPipe()
+	stdout, _ := cmd.StdoutPipe()
+	var stderr strings.Builder
+	cmd.Stderr = &stderr
+	if err := cmd.Start(); err != nil {
+		return err.Error(), "infra", ""
+	}
+	rd := bufio.NewReader(stdout)
+	lines := make(chan string, 2)
+	go func() {
+		for i := 0; i < 2; i++ {
+			l, err := rd.ReadString('\n')
+			lines <- strings.TrimSpace(l)
+			if err != nil || !strings.HasPrefix(l, "READY") {
+				return
+			}
+		}
+	}()
+	finish := func() {
+		stdin.Close()
+		io.Copy(io.Discard, rd)
+		cmd.Wait()
+	}
+	second := c20Cfg{Pid: q.Second.Pid, FDS: q.Second.FDS, Names: q.Second.Names, Kinds: c.Kinds, Cand: c.Cand, Product: c.Product + "-second", Fallback: c.Fallback + "-second"}
+	hist := fmt.Sprintf("history=[%s] then [%s]", c20Key(*c), c20Key(second))
+	for i, cfg := range []c20Cfg{*c, second} {
+		var line string
+		select {
+		case line = <-lines:
+		case <-time.After(60 * time.Second):
+			cmd.Process.Kill()
+			cmd.Wait()
+			return "helper did not report within 60 s", "infra", ""
+		}
+		which := []string{"first", "second"}[i]
+		sel := refActivation(cfg)
+		want := "unix " + cfg.Fallback
+		if sel >= 0 {
+			want = "unix " + cfg.Cand[sel]
+		}
+		switch {
+		case strings.HasPrefix(line, "PANIC"):
+			finish()
+			return "Listen panicked: " + line, "symptom=panic " + hist, ""
+		case strings.HasPrefix(line, "LISTENERR"):
+			finish()
+			return fmt.Sprintf("the %s Listen of the process failed (%s); the reference selector says it serves %q", which, line, want), "symptom=listen-failed " + hist, ""
+		case strings.HasPrefix(line, "READY"):
+			got := strings.TrimSpace(line[len("READY")+1:])
+			if got != want {
+				finish()
+				return fmt.Sprintf("the %s service of the process listens on %q; under the environment at the time of its Listen the reference selector says %q", which, got, want), "symptom=wrong-endpoint which=" + which + " " + hist, ""
+			}
+			addr := strings.TrimPrefix(want, "unix ")
+			conn, err := net.Dial("unix", addr)
+			if err != nil {
+				finish()
+				return "dial " + addr + ": " + err.Error(), "symptom=endpoint-unreachable which=" + which + " " + hist, ""
+			}
+			vc := varlink.VerifNewConnection(conn)
+			ctx, cancel := context.WithTimeout(context.Background(), 30*time.Second)
+			prod, err := getInfoProduct(ctx, vc)
+			cancel()
+			vc.Close()
+			if err != nil || prod != cfg.Product {
+				finish()
+				return fmt.Sprintf("GetInfo on %s: product %q err %v, want %q", addr, prod, err, cfg.Product), "symptom=endpoint-not-served which=" + which + " " + hist, ""
+			}
+		default:
+			finish()
+			return "helper said: " + line + " stderr: " + stderr.String(), "infra", ""
+		}
+	}
+	stdin.Close()
+	rest, _ := io.ReadAll(rd)
+	cmd.Wait()
+	if strings.Count(string(rest), "DONE <nil>") != 2 {
+		return "after Shutdown the helper reported " + strings.TrimSpace(string(rest)) + " " + stderr.String(), "symptom=shutdown-error " + hist, ""
+	}
+	return "", "", fmt.Sprintf("history: first %s, second %s", selWord(refActivation(*c)), selWord(refActivation(second)))
+}
+
+func selWord(sel int) string {
+	if sel < 0 {
+		return "fallback"
+	}
+	return fmt.Sprintf("fd%d", 3+sel)
 }
